@@ -241,6 +241,21 @@ class Evaluator:
         if isinstance(st, ast.Expr):
             if isinstance(st.value, ast.Constant):
                 return
+            c = st.value
+            if isinstance(c, ast.Call) and isinstance(c.func, ast.Attribute) and c.func.attr in ('append', 'extend') and \
+                    isinstance(c.func.value, ast.Name) and c.func.value.id in env and env[c.func.value.id].kind == 'list' and \
+                    env[c.func.value.id].items is not None and len(c.args) == 1:
+                cur = env[c.func.value.id]
+                if sum(1 for v_ in env.values() if v_ is cur) > 1:
+                    raise Unknown('in-place change of a list that has two names')
+                v = self.ev(c.args[0], env)
+                if c.func.attr == 'append':
+                    env[c.func.value.id] = AV('list', items=cur.items + (v,))
+                else:
+                    if v.items is None:
+                        raise Unknown('extend with unknown contents')
+                    env[c.func.value.id] = AV('list', items=cur.items + tuple(v.items))
+                return
             self.ev(st.value, env)
             return
         if isinstance(st, ast.Pass):
@@ -444,6 +459,9 @@ class Evaluator:
             raise Unknown(f'attribute {node.attr} of {v!r}')
         if isinstance(node, ast.BinOp):
             a, b = self.ev(node.left, env), self.ev(node.right, env)
+            if isinstance(node.op, ast.Add) and a.kind == b.kind and a.kind in ('list', 'tuple') and a.items is not None and \
+                    b.items is not None:
+                return AV(a.kind, items=a.items + b.items)
             if a.val is not None and b.val is not None and isinstance(a.val, (int, float)) and isinstance(b.val, (int, float)):
                 try:
                     r = {ast.Add: a.val + b.val, ast.Sub: a.val - b.val, ast.Mult: a.val * b.val}.get(type(node.op))
@@ -553,6 +571,12 @@ class Evaluator:
             return to_str(self.ev(node.args[0], env))
         if name == 'bool':
             return const_av(truth(self.ev(node.args[0], env)))
+        if name in ('any', 'all') and len(node.args) == 1:
+            v = self.ev(node.args[0], env)
+            if v.items is None:
+                raise Unknown(name)
+            ts = [truth(x) for x in v.items]
+            return const_av(any(ts) if name == 'any' else all(ts))
         if name == 'next' and node.args:
             v = self.ev(node.args[0], env)
             if v.items is None:
